@@ -121,3 +121,145 @@ Proof.
                  apply bind_ext. intros t. cbn [app]. rewrite <- app_assoc. reflexivity.
               ** cbn [fst snd]. rewrite (IH r) by (try lia; assumption). rewrite shape_step. rewrite rev_cons_app. reflexivity.
 Qed.
+
+Lemma rscan_body d o2n b R bef pos : o2n_ok o2n -> wf_body b = true ->
+  rscan d o2n (b ++ 0 :: R) bef pos false false 0 =
+  bind (rscan d o2n (0 :: R) (rev (fst (rw_body d o2n b bef pos false false 0)) ++ bef) (pos + zlen b) false false 0)
+       (fun t => Ok (fst (rw_body d o2n b bef pos false false 0) ++ fst t,
+                     snd (rw_body d o2n b bef pos false false 0) ++ snd t)).
+Proof.
+  intros Ho Hw. unfold wf_body in Hw. apply andb_true_iff in Hw as [Hb Hk].
+  apply (rscan_body_n d o2n (length b) Ho b (le_n _)); [exact Hk | apply bytesb_ok; exact Hb].
+Qed.
+
+(* ------------------------------------------------------------------ the scan over the whole image *)
+Definition tail_ok (tail : list Z) : Prop :=
+  match tail with x :: _ => (x =? tk_T_UINT) = false | [] => True end.
+
+Lemma size_rw_prog d o2n c0 ls : forall p bef pos,
+  Forall (fun l : line => wf_body (snd l) = true) ls ->
+  size (fst (rw_prog d o2n c0 p ls bef pos)) = size ls.
+Proof.
+  induction ls as [|l r IH]; intros p bef pos Hb; [reflexivity|].
+  pose proof (Forall_inv Hb) as Hb1. pose proof (Forall_inv_tail Hb) as Hb2. cbn beta in Hb1.
+  cbn [rw_prog fst size snd]. rewrite IH by exact Hb2.
+  unfold wf_body in Hb1. apply andb_true_iff in Hb1 as [_ Hk]. rewrite zlen_rw_body by exact Hk. reflexivity.
+Qed.
+
+Lemma rscan_prog d o2n c0 tail ls : o2n_ok o2n -> tail_ok tail -> forall p bef pos,
+  0 <= c0 -> 0 <= p -> Forall (fun l : line => wf_body (snd l) = true) ls ->
+  rscan d o2n (lay c0 p ls ++ 0 :: 0 :: 0 :: tail) bef pos false false 0
+  = Ok (lay c0 p (fst (rw_prog d o2n c0 p ls bef pos)) ++ 0 :: 0 :: 0 :: tail, snd (rw_prog d o2n c0 p ls bef pos)).
+Proof.
+  intros Ho Ht. induction ls as [|l r IH]; intros p bef pos Hc Hp Hb.
+  - cbn [lay app rw_prog fst snd rscan]. change (0 <? 0) with false. cbv iota.
+    change (0 =? 34) with false. change (0 =? tk_REM) with false. change (0 =? 0) with true.
+    change (0 =? tk_T_UINT) with false. cbn [andb negb orb]. cbv iota.
+    destruct tail as [|x r'']; [reflexivity|]. cbn in Ht. rewrite Ht. reflexivity.
+  - pose proof (Forall_inv Hb) as Hb1. pose proof (Forall_inv_tail Hb) as Hb2. cbn beta in Hb1.
+    pose proof (zlen_nonneg (snd l)) as Hl.
+    assert (Hk : body_ok (snd l) false false 0 = true).
+    { unfold wf_body in Hb1. apply andb_true_iff in Hb1 as [_ Hk]. exact Hk. }
+    cbn [lay rw_prog fst snd]. rewrite <- !app_assoc. cbn [app le2].
+    rewrite (img_cons c0 (p + 5 + zlen (snd l)) r tail).
+    (* the 00 of the line start and the link *)
+    cbn [rscan]. change (0 <? 0) with false. cbv iota.
+    change (0 =? 34) with false. change (0 =? tk_REM) with false. change (0 =? 0) with true.
+    change (0 =? tk_T_UINT) with false. cbn [andb negb orb]. cbv iota.
+    rewrite le2_nonzero by lia.
+    (* the two bytes of the line number *)
+    change (0 <? 2) with true. cbv iota. change (2 - 1) with 1. change (0 <? 1) with true. cbv iota.
+    change (1 - 1) with 0.
+    replace (pos + 3 + 1 + 1) with (pos + 5) by lia.
+    rewrite (rscan_body d o2n (snd l) _ _ _ Ho Hb1).
+    rewrite <- (img_cons c0 (p + 5 + zlen (snd l)) r tail).
+    set (hdr_rev := fst l / 256 :: fst l mod 256 :: (c0 + 1 + p + 5 + zlen (snd l)) / 256
+                    :: (c0 + 1 + p + 5 + zlen (snd l)) mod 256 :: 0 :: bef).
+    set (rb := rw_body d o2n (snd l) hdr_rev (pos + 5) false false 0).
+    rewrite (IH (p + 5 + zlen (snd l)) (rev (fst rb) ++ hdr_rev) (pos + 5 + zlen (snd l))) by (try lia; assumption).
+    cbn [bind fst snd].
+    change (rev (0 :: (c0 + 1 + p + 5 + zlen (snd l)) mod 256 :: (c0 + 1 + p + 5 + zlen (snd l)) / 256
+                   :: le2 (fst l)) ++ bef) with hdr_rev. fold rb.
+    assert (Hz : zlen (fst rb) = zlen (snd l)) by (apply zlen_rw_body; exact Hk).
+    rewrite Hz. reflexivity.
+Qed.
+
+(* ------------------------------------------------------------------ pass 1: the numbering *)
+Lemma lmax_spec l m : lmax l = Some m -> In m l /\ Forall (fun x => x <= m) l.
+Proof.
+  revert m; induction l as [|x r IH]; intros m H; cbn [lmax] in H; [discriminate|].
+  destruct (lmax r) as [m'|] eqn:E.
+  - inversion H; subst. destruct (IH m' eq_refl) as [Hin Hall]. split.
+    + destruct (Z.max_spec x m') as [[_ Hm]|[_ Hm]]; rewrite Hm; [right; exact Hin | left; reflexivity].
+    + constructor; [lia|]. eapply Forall_impl; [|exact Hall]. cbn. intros; lia.
+  - inversion H; subst. destruct r; [|cbn [lmax] in E; destruct (lmax r); discriminate].
+    split; [left; reflexivity | constructor; [lia | constructor]].
+Qed.
+Lemma lmax_none l : lmax l = None -> l = [].
+Proof. destruct l as [|x r]; [reflexivity|]. cbn [lmax]. destruct (lmax r); discriminate. Qed.
+
+Definition fitsb (n : nat) (new step : Z) : bool :=
+  (Nat.eqb n 0) || (new + (Z.of_nat n - 1) * step <=? 65529).
+
+Lemma assign_loop_spec step rn : 1 <= step -> Forall (fun l : line => fst l < 65535) rn -> forall new,
+  assign_loop (nums rn ++ [65536]) new step =
+  if fitsb (length rn) new step then Ok (combine (nums rn) (seqz new step (length rn))) else Err err_IFC.
+Proof.
+  intros Hs. induction rn as [|l r IH]; intros Hn new.
+  - reflexivity.
+  - pose proof (Forall_inv Hn) as H1. pose proof (Forall_inv_tail Hn) as H2. cbn beta in H1.
+    cbn [nums map app assign_loop length seqz combine]. fold (nums r).
+    destruct (fst l <? 65535) eqn:E1; [|lia]. cbn [andb].
+    unfold fitsb. cbn [Nat.eqb orb].
+    destruct (new >? 65529) eqn:E2; rewrite Z.gtb_ltb in E2.
+    + destruct (new + (Z.of_nat (S (length r)) - 1) * step <=? 65529) eqn:E3; [|reflexivity]. exfalso.
+      assert (HX : 0 <= (Z.of_nat (S (length r)) - 1) * step) by (apply Z.mul_nonneg_nonneg; [clear; lia | clear - Hs; lia]).
+      apply Z.leb_le in E3. apply Z.ltb_lt in E2. clear - HX E2 E3.
+      remember ((Z.of_nat (S (length r)) - 1) * step) as X. lia.
+    + destruct (fst l =? 65536) eqn:E4; [lia|]. rewrite (IH H2). unfold fitsb.
+      destruct r as [|l2 r2].
+      * cbn [length Nat.eqb orb bind seqz combine nums map].
+        change (Z.of_nat 1 - 1) with 0. destruct (new + 0 * step <=? 65529) eqn:E3; [reflexivity | clear - E2 E3; lia].
+      * cbn [Nat.eqb orb]. replace (new + step + (Z.of_nat (length (l2 :: r2)) - 1) * step)
+          with (new + (Z.of_nat (S (length (l2 :: r2))) - 1) * step) by (clear; rewrite Nat2Z.inj_succ; ring).
+        destruct (new + (Z.of_nat (S (length (l2 :: r2))) - 1) * step <=? 65529); reflexivity.
+Qed.
+
+Lemma keys_abs c s ls tail k : abs_ok c s ls tail -> (In k (keys (lines s)) <-> In k (nums ls) \/ k = 65536).
+Proof.
+  intros Habs. split.
+  - intros H. apply In_keys in H as [v Hv]. apply (a_lines _ _ _ _ Habs) in Hv. unfold index in Hv.
+    apply in_app_iff in Hv as [Hv|[Hv|[]]]; [left; eapply In_idx_num; exact Hv | inversion Hv; right; reflexivity].
+  - intros [H| ->].
+    + unfold nums in H. apply in_map_iff in H as [l [E Hl]]. subst k. destruct (num_in_d l ls 0 Hl) as [v Hv].
+      eapply keys_In. apply (a_lines _ _ _ _ Habs). unfold index. apply in_app_iff. left. exact Hv.
+    + eapply keys_In. apply (a_lines _ _ _ _ Habs). unfold index. apply in_app_iff. right. left. reflexivity.
+Qed.
+
+Lemma nums_filter P ls : nums (filter (fun l : line => P (fst l)) ls) = filter P (nums ls).
+Proof. induction ls as [|l r IH]; cbn [filter nums map]; [reflexivity|]. fold (nums r). destruct (P (fst l)); cbn [nums map]; fold (nums (filter (fun l : line => P (fst l)) r)); rewrite IH; reflexivity. Qed.
+
+Lemma sorted_keys_ge c s ls tail start : abs_ok c s ls tail -> start <= 65536 ->
+  sort_Z (filter (fun k => start <=? k) (keys (lines s))) = nums (rn_part start ls) ++ [65536].
+Proof.
+  intros Habs Hst. pose proof Habs as [Hs Hn Hb Hcode Hnd Hlines Hfit].
+  assert (Hrn : StronglySorted Z.lt (nums (rn_part start ls))) by (apply sorted_filter; exact Hs).
+  assert (Hle : forall k, In k (nums (rn_part start ls)) -> start <= k <= 65535 /\ In k (nums ls)).
+  { intros k Hk. unfold rn_part in Hk. rewrite (nums_filter (fun k => start <=? k)) in Hk.
+    apply filter_In in Hk as [Hk1 Hk2]. split; [|exact Hk1]. unfold nums in Hk1. apply in_map_iff in Hk1 as [l [E Hl]].
+    rewrite Forall_forall in Hn. specialize (Hn l Hl). lia. }
+  apply sort_of_perm.
+  - apply NoDup_Permutation.
+    + apply NoDup_filter. exact Hnd.
+    + apply NoDup_snoc; [apply sorted_NoDup; exact Hrn|]. intros Hin. apply Hle in Hin. lia.
+    + intros k. rewrite filter_In, (keys_abs c s ls tail k Habs), in_app_iff. cbn [In]. split.
+      * intros [[H| ->] Hk]; [|right; left; reflexivity]. left. unfold rn_part.
+        rewrite (nums_filter (fun k => start <=? k)). apply filter_In. split; assumption.
+      * intros [H|[<-|[]]]; [|split; [right; reflexivity | lia]]. destruct (Hle k H) as [H1 H2].
+        split; [left; exact H2 | lia].
+  - assert (Hlt : forall k, In k (nums (rn_part start ls)) -> k < 65536) by (intros k Hk; apply Hle in Hk; lia).
+    clear Hle. induction (nums (rn_part start ls)) as [|x r IH]; cbn [app]; [repeat constructor|].
+    inversion Hrn as [|? ? Hr Hall]; subst. constructor.
+    + apply IH; [exact Hr|]. intros k Hk. apply Hlt. right. exact Hk.
+    + apply Forall_app. split; [exact Hall|]. constructor; [|constructor]. apply Hlt. left. reflexivity.
+Qed.
